@@ -20,8 +20,8 @@ package main
 // obs  = (outcome local' remote')  outcome 0 ok | 1 error; states as in the case with sorted lists
 //
 // Oracle classes: closure, depth-rule, depth-rule-want-order, depth-rule-followed-tag, table-unusable, objects-differ,
-// not-idempotent, rounds, refs-before-objects, retries-unbounded / retries-unbounded-stream-reset (watchdog of the
-// reference server: more than 40 requests in an exchange that cannot succeed),
+// not-idempotent, rounds, refs-before-objects, retries-unbounded (one fetch starts more than 5 upload-pack exchanges,
+// or the reference server's watchdog fires after 80 requests of an exchange that cannot succeed),
 // success-with-missing-objects (a faulted run that reports success
 // although a moved ref lacks history or tables), fault-broke-refs (any ref that does not resolve with full history).
 
@@ -746,7 +746,7 @@ func runC09(ctx *Ctx, t *xt.T) (*xt.T, Verdict) {
 	if c.FMode == 3 || c.FMode == 4 {
 		// persistent fault: the exchange cannot succeed; a client that keeps retrying is stopped by the watchdog
 		srv.Persistent = c.FMode - 2
-		srv.MaxRequests = 40
+		srv.MaxRequests = 80
 	} else if c.FMode != 0 {
 		srv.FaultPhase, srv.FaultJ = c.FPhase, c.FJ
 		if c.FPhase == 2 {
@@ -1171,13 +1171,11 @@ func runC09(ctx *Ctx, t *xt.T) (*xt.T, Verdict) {
 			fail("rounds", "%d negotiation rounds for %d local commits with k=%d", r1.stats.UploadNegRounds, nfull, k)
 		}
 	}
-	if r1.stats.Watchdog {
-		// "never loops forever": the exchange could not succeed and the client kept sending requests
-		cls := "retries-unbounded"
-		if c.FMode == 4 {
-			cls = "retries-unbounded-stream-reset" // fetch.Fetch's retry on an HTTP/2 stream reset has no attempt limit
-		}
-		v := Fail(cls, "the client sent more than 40 requests against a remote whose every packfile answer is broken (%d faults): %s", r1.stats.Faults, r1.out)
+	// "never loops forever": fetch.Fetch starts an exchange over after a stream reset at most maxFetchAttempts = 5
+	// times; more upload-pack exchanges than that for one command (or the watchdog firing) is unbounded retrying
+	if r1.stats.Watchdog || (c.Kind == 0 && c.K == 0 && r1.stats.UploadSessions > 5) {
+		v := Fail("retries-unbounded", "one fetch started %d upload-pack exchanges (%d answers broken, watchdog fired: %v): %s",
+			r1.stats.UploadSessions, r1.stats.Faults, r1.stats.Watchdog, r1.out)
 		return obs, v
 	}
 	if verdict != nil {
